@@ -1,6 +1,6 @@
 """C05 — the daily schedule is complete and chronologically ordered (engine M)."""
 from ..common import *
-from ..obl import base, policy, kernels, wiring
+from ..obl import base, policy, kernels, wiring, rounding, jd
 from . import policyprop as pp
 from . import kernelprop as kp
 
@@ -20,10 +20,15 @@ def run(rep):
         "Shurooq/Maghrib by seconds while the gaps proven here are >= 0.14 rad (32 min) for Fajr/Isha",
         "under rounding the order is preserved because hour_to_time is monotone (C11)"]
     obls = [(wiring.prayer_times_dt_wiring, False), (wiring.get_hours_wiring, None), (kernels.order_twilight_vs_riseset, 60),
-            (kernels.fajr_isha_monotone, 60), (kernels.asr, 60), (policy.policy_clauses, ("None", ["none"], "named"))]
+            (kernels.fajr_isha_monotone, 60), (kernels.asr, 60), (policy.policy_clauses, ("None", ["none"], "named")),
+            (jd.jd_formula, (1600, 2399))]
+    obls += [(rounding.rounding, (m, k, -50, 75, 1500)) for m in ("None", "SpecialRounding") for k in ("Fajr", "Shurooq", "Isha")]
     results = base.run_obligations(rep, obls)
     cands = [c for x in results for c in x["cands"]]
     if cands:
+        from . import c11, c01
+        c11.confirm_rounding(rep, results)
+        c01.confirm_jd(rep, results) if any(x["cands"] for x in results if x["name"].startswith("JulianDay")) else None
         a = pp.confirm_kadj(rep, results, "C05")
         kres = [x for x in results if x["name"].startswith(("order", "get_fajr", "get_asr"))]
         if any(x["cands"] for x in kres):
